@@ -244,6 +244,9 @@ func main() {
 	}
 	wg.Wait()
 
+	// ---- race-detector pass: the concurrent workloads once more, in a worker built with -race
+	raceInfo, raceViol := racePass(*root, id, *tier, *modfile, bin, runDir, seed)
+
 	// ---- merge
 	total := &mon.Result{Prop: id, Tier: *tier, Seed: seed, Counters: map[string]int64{}, Floors: map[string]int64{},
 		Exhaustive: map[string]int64{}, Streams: map[string]int64{}}
@@ -321,6 +324,15 @@ func main() {
 				viol[v.Sig] = v
 			}
 		}
+	}
+	for _, v := range raceViol {
+		viol[v.Sig] = v
+	}
+	if total.Notes == nil {
+		total.Notes = map[string]string{}
+	}
+	for k, v := range raceInfo {
+		total.Notes["race_detector."+k] = v
 	}
 	for k, want := range total.Floors {
 		if total.Counters[k] < want {
@@ -410,6 +422,151 @@ func main() {
 		fmt.Printf("HELD property=%s on everything explored\n", id)
 	}
 	os.Exit(exit)
+}
+
+// racePass builds the worker with the Go race detector and runs its concurrent workloads (streams named
+// "concurrent..." and "cold-start...") at the quick size. Every report of the detector whose stacks differ is a
+// violation of its own ("race: f / g"); what was run and how many reports were seen goes into the evidence. A
+// tool chain without cgo / -race support skips the pass and says so (the functional comparison of the concurrent
+// workloads is unaffected).
+func racePass(root, id, tier, modfile, bin, runDir string, seed uint64) (map[string]string, []*mon.Viol) {
+	info := map[string]string{}
+	if os.Getenv("VERIF_NO_RACE") != "" {
+		info["skipped"] = "VERIF_NO_RACE is set"
+		return info, nil
+	}
+	raceBin := bin + "-race"
+	args := []string{"build", "-race", "-tags", "verif", "-o", raceBin}
+	if modfile != "" {
+		args = append(args, "-modfile="+modfile)
+	}
+	args = append(args, "./cmd/"+strings.ToLower(id))
+	cmd := exec.Command("go", args...)
+	cmd.Dir = filepath.Join(root, "harness")
+	cmd.Env = append(os.Environ(), "CGO_ENABLED=1")
+	if out, err := cmd.CombinedOutput(); err != nil {
+		first := strings.SplitN(strings.TrimSpace(string(out)), "\n", 2)[0]
+		info["skipped"] = "the worker does not build with -race here: " + first
+		fmt.Printf("note: race-detector pass skipped (%s)\n", first)
+		return info, nil
+	}
+	shards := 2
+	if tier == "thorough" {
+		shards = 8
+	}
+	var wg sync.WaitGroup
+	for s := 0; s < shards; s++ {
+		wg.Add(1)
+		go func(s int) {
+			defer wg.Done()
+			out := filepath.Join(runDir, fmt.Sprintf("race%d.json", s))
+			c := exec.Command(raceBin, "-tier", "quick", "-seed", strconv.FormatUint(seed, 10), "-shard", strconv.Itoa(s), "-nshards", "8",
+				"-out", out, "-only", "concurrent,cold-start,overlapping", "-maxprocs", "4")
+			c.Env = append(os.Environ(), "GORACE=halt_on_error=0 log_path="+filepath.Join(runDir, fmt.Sprintf("racelog%d", s)))
+			logf, _ := os.Create(filepath.Join(runDir, fmt.Sprintf("race%d.log", s)))
+			c.Stdout, c.Stderr = logf, logf
+			done := make(chan error, 1)
+			if err := c.Start(); err != nil {
+				logf.Close()
+				return
+			}
+			go func() { done <- c.Wait() }()
+			select {
+			case <-done:
+			case <-time.After(30 * time.Minute):
+				c.Process.Kill()
+				<-done
+			}
+			logf.Close()
+		}(s)
+	}
+	wg.Wait()
+	logs, _ := filepath.Glob(filepath.Join(runDir, "racelog*"))
+	reports := 0
+	bySig := map[string]*mon.Viol{}
+	calls := int64(0)
+	for s := 0; s < shards; s++ {
+		if b, err := os.ReadFile(filepath.Join(runDir, fmt.Sprintf("race%d.json", s))); err == nil {
+			var r mon.Result
+			if json.Unmarshal(b, &r) == nil {
+				calls += r.Counters["concurrent.calls"] + r.Counters["concurrent.reads_of_a_shared_object"]
+			}
+		}
+	}
+	for _, lf := range logs {
+		b, err := os.ReadFile(lf)
+		if err != nil {
+			continue
+		}
+		for _, blk := range strings.Split(string(b), "==================") {
+			if !strings.Contains(blk, "WARNING: DATA RACE") {
+				continue
+			}
+			reports++
+			// the two access stacks: the first library function of each (or the first function at all)
+			var fns []string
+			var cur []string
+			flush := func() {
+				if cur == nil {
+					return
+				}
+				pick := ""
+				for _, f := range cur {
+					if strings.Contains(f, "github.com/Comcast/gots") {
+						pick = f
+						break
+					}
+				}
+				if pick == "" && len(cur) > 0 {
+					pick = cur[0]
+				}
+				fns = append(fns, pick)
+				cur = nil
+			}
+			for _, ln := range strings.Split(blk, "\n") {
+				t := strings.TrimSpace(ln)
+				switch {
+				case strings.HasPrefix(t, "Write at"), strings.HasPrefix(t, "Read at"), strings.HasPrefix(t, "Previous write at"), strings.HasPrefix(t, "Previous read at"),
+					strings.HasPrefix(t, "Atomic"), strings.HasPrefix(t, "Previous atomic"):
+					flush()
+					cur = []string{}
+				case strings.HasPrefix(t, "Goroutine "), t == "":
+					flush()
+				case cur != nil && !strings.Contains(t, ".go:") && strings.HasSuffix(t, ")"):
+					if i := strings.LastIndex(t, "("); i > 0 {
+						t = t[:i]
+					}
+					cur = append(cur, t)
+				}
+			}
+			flush()
+			for len(fns) < 2 {
+				fns = append(fns, "?")
+			}
+			sort.Strings(fns[:2])
+			sig := "race: " + fns[0] + " / " + fns[1]
+			if v := bySig[sig]; v != nil {
+				v.Count++
+				continue
+			}
+			txt := strings.TrimSpace(blk)
+			if len(txt) > 3000 {
+				txt = txt[:3000]
+			}
+			bySig[sig] = &mon.Viol{Sig: sig, What: "the Go race detector reported unsynchronised conflicting accesses while the concurrent workloads of this property ran (goroutines with inputs of their own, or reading one shared object)", Witness: map[string]interface{}{"report": txt}, Count: 1}
+		}
+	}
+	info["built_with"] = "go build -race"
+	info["worker_processes"] = strconv.Itoa(shards)
+	info["streams"] = "those named concurrent..., cold-start... and overlapping... at the quick size"
+	info["concurrent_calls_observed"] = strconv.FormatInt(calls, 10)
+	info["reports"] = strconv.Itoa(reports)
+	fmt.Printf("  race detector: %d worker process(es), %d concurrent calls observed, %d report(s)\n", shards, calls, reports)
+	var out []*mon.Viol
+	for _, v := range bySig {
+		out = append(out, v)
+	}
+	return info, out
 }
 
 func mergeInto(dst, src *mon.Result) {
